@@ -4,5 +4,5 @@
 import sys
 sys.path[:0] = ['/repo' + "/pulser-core", '/repo' + "/pulser-simulation", "/verif"]
 from symx.replay import replay
-sys.exit(replay(check='checks.c13', kernel='history', shape={'device': 'virt', 'k': 3, 'first': 3},
+sys.exit(replay(check='checks.c13', kernel='history', shape={'device': 'virt', 'k': 3, 'first': 2},
                 assignment={'op1': 15, 'op2': 6}, label='typestate:SLM'))
